@@ -859,7 +859,7 @@ class FromAppStream(Stream):
 
 CHECK = Check(
     prop="C05",
-    gen=["Containers", "Views", "Response", "Http", "PyFns_Internal", "PyFns_Range", "PyFns_Response"],
+    gen=["Containers", "Views", "ResponseProps", "CacheSetTable", "Response", "Http", "PyFns_Internal", "PyFns_Range", "PyFns_Response"],
     modules=["WzVerif.Props.C05", "WzVerif.Props.C05T"],
     streams=[WsgiStream(), HistoryStream(), FromAppStream()],
     assumptions=[
